@@ -27,7 +27,7 @@ ANCHORS = ["decaylanguage.dec.dec:DecFileParser._add_decays_to_be_copied", "deca
            "decaylanguage.dec.dec:DecFileParser.parse", "decaylanguage.dec.dec:DecFileParser.build_decay_chains",
            "decaylanguage.dec.dec:DecFileParser.expand_decay_modes", "decaylanguage.dec.dec:DecFileParser.print_decay_modes"]
 WORKERS = {"quick": 8, "thorough": 16}
-REQUIRED = {**{f"op:{o}": 30 for o in OPS}, "mutated:list": 20, "mutated:dict": 20, "mutated:nested-chain": 20, "mutated:list-of-lists": 10,
+REQUIRED = {"file:copy-of-a-block-without-lines": 3, **{f"op:{o}": 30 for o in OPS}, "mutated:list": 20, "mutated:dict": 20, "mutated:nested-chain": 20, "mutated:list-of-lists": 10,
             "file:CopyDecay+CDecay": 10, "file:copy-is-cdecay-source": 5, "file:two-copies-of-one-source": 5, "file:every-line-indented": 5, "file:copy-without-source-among-other-copies": 5, "copy-semantics-without-conjugates": 10, "file:first-block-is-an-alias-and-copy-source": 5, "file:alias-pair-with-changing-partner": 10, "identity-walk:derived-tables": 20, "reparse": 30, "steps-compared": 1000,
             "exhaustive-short-histories": 100}
 EXHAUSTIVE_NOTE = "all histories of length 2 (quick) / 3 (thorough) over the 15 operation kinds on 5 fixed files"
@@ -89,6 +89,12 @@ def gen_file(ctx, fixed=None):
         # a CopyDecay whose source has no Decay block when copies are made (it exists through CDecay only, or not at all): no table for it, the others unaffected
         stmts.insert(r.randrange(len(stmts)), {"k": "CopyDecay", "a": "MyMissing", "b": r.choice([names.conj(ms[0]), "NoSuchParticle"])})
         hits.append("file:copy-without-source-among-other-copies")
+    if fixed is None and r.random() < 0.25:
+        # a particle declared stable through a Decay block without lines, and a copy of that (empty) table: the copy has a table too, without lines
+        e = next((x for x in ["K_S0", "Lambda0", "n0", "mu-", "tau-"] if x not in used), None)
+        if e:
+            stmts += [{"k": "Decay", "m": e, "lines": []}, {"k": "CopyDecay", "a": "MyStableCopy", "b": e}]
+            hits.append("file:copy-of-a-block-without-lines")
     for m in r.sample(ms, r.choice([1, 2])):
         stmts.append({"k": "CDecay", "name": names.conj(m)})
     if any(s["k"] == "CopyDecay" for s in stmts):
@@ -200,6 +206,8 @@ class Hist:
                         buf = io.StringIO()
                         with contextlib.redirect_stdout(buf):
                             kw = r.choice([{}, {"normalize": True}, {"scale": 0.5}, {"ascending": True}, {"print_model": False}, {"display_photos_keyword": False}])
+                            if "scale" in kw and not p.list_decay_modes(m):
+                                kw = {}      # rescaling a table without lines is outside what the printing property (C16: 1..n lines) covers; the library refuses it
                             p.print_decay_modes(m, **kw)
                         last = None
                     elif op == "repr":
